@@ -231,6 +231,16 @@ func (r *runner) readValue(g extcoq.Gen, size, idx int, big, oracle bool) {
 			continue
 		}
 		success := isEOF(err) && !pL
+		// values beyond a one-byte prefix: whatever Read accepts must still be self-consistent
+		// (the inner length prefixes match the body), so a wrapped prefix is a failure.
+		if !oracle && success && k > 0 && k <= n && typ != "ALPNExtension" {
+			c.Count("check:over-limit")
+			if k < 4 || int(binary.BigEndian.Uint16(b[2:4])) != k-4 || !innerOK(binary.BigEndian.Uint16(b[0:2]), b[4:k]) {
+				c.Count("fail:over-limit")
+				c.Fail(typ+"/over-limit", "Read() accepted a value that does not fit its one-byte length prefix and wrote length prefixes that do not match the body",
+					in, clip(vh.Hex(b[:k]), 200), "an error, or a body its own grammar accepts strictly")
+			}
+		}
 		if within && !pL {
 			if n >= L {
 				c.Count("check:len-vs-read")
